@@ -5,3 +5,5 @@ import RasnModel.Props.C14
 import RasnModel.Driver.C14
 import RasnModel.Props.C16
 import RasnModel.Driver.C16
+import RasnModel.Props.C05
+import RasnModel.Driver.Struct
